@@ -121,6 +121,11 @@ func sourceMapHostile() []string {
 		// ordinary property values of a target node and its @type
 		out = append(out, `[{"@id":"http://ex.org/n/1","@type":["http://ex.org/v#T"],"http://ex.org/v#p0":`+sh+`}]`)
 	}
+	// lexical range strings that are not in the `[(l,c)-(l,c)]` format
+	for _, rng := range []string{"[(1,0)-(2,007)]", "[(01,1)-(2,2)]", "[(1,2)-(3)]", "[(1,2)]", "(a,b)-(c,d)", "", "1", "[(1,2)-(3,4)-(5,6)]", "[(-1,2)-(3,4)]", "[(1.5,2)-(3,4)]", "[(1e3,2)-(3,4)]", "[(١,٢)-(٣,٤)]", "[(0x10,2)-(3,4)]"} {
+		rb, _ := json.Marshal(rng)
+		out = append(out, `[`+target+`,{"@id":"http://ex.org/sm","@type":["`+sm+`SourceMap"],"`+sm+`lexical":[{"@id":"http://ex.org/l"}]},{"@id":"http://ex.org/l","`+sm+`element":"http://ex.org/n/1","`+sm+`value":`+string(rb)+`}]`)
+	}
 	return out
 }
 
